@@ -27,7 +27,8 @@ from . import _c13_nfx as X
 ID = 'C13'
 SAMPLING = 'mitxgraders/sampling.py'
 MH = 'mitxgraders/helpers/math_helpers.py'
-FILES = [SAMPLING, MH]
+FG = 'mitxgraders/formulagrader/formulagrader.py'
+FILES = [SAMPLING, MH, FG]
 
 EXPLANATION = (
     "(D1, CFG) in gen_symbols_samples' `while <pending dependents>` loop the progress flag is reset on every round before it "
@@ -48,7 +49,9 @@ EXPLANATION = (
     "and gives it the sampler of group 2; (D6) construct_constants = copy of the defaults then the user's entries; "
     "gen_var_and_func_samples declares every sibling, refuses empty ones with MissingInput before building "
     "DependentSampler(formula=<its formula>), searches all expressions incl. dict values, and passes "
-    "variables/samples/samplers/functions/suffixes/constants to gen_symbols_samples in their roles.")
+    "variables/samples/samplers/functions/suffixes/constants to gen_symbols_samples in their roles; (D7) every enumeration of "
+    "the sampling sets (a loop/comprehension that looks samplers up by its variable, or ranges over sample_from) has "
+    "config['sample_from'] -- or variables + numbered_vars -- as its domain, never config['variables'] alone.")
 NOT_DECIDED = ("numeric values of dependent variables (the formula evaluator, C03); that the evaluator raises for a missing "
                "variable; termination of the samplers' own draws (C12); regex engine semantics (trusted).")
 ASSUMPTIONS = ["samplers' gen_sample and DependentSampler.compute_sample are the only sources of sampled values",
@@ -62,7 +65,7 @@ CALC_COVER = ('CalcError', 'StudentFacingError', 'MITxError', 'Exception', 'Base
 
 
 def check(ctx):
-    _run_all(ctx, ctx.index, [d1_progress, d2_keys, d3_roles, d4_dependent, d5_regex, d5_numbered, d6_constants, d6_siblings])
+    _run_all(ctx, ctx.index, [d1_progress, d2_keys, d3_roles, d4_dependent, d5_regex, d5_numbered, d6_constants, d6_siblings, d7_samplers])
 
 
 def _run_all(ctx, idx, fns):
@@ -451,20 +454,41 @@ def d2_keys(ctx, idx):
                     r.undecided(construct, 'definition not recognised: %s' % short(pv), lib.loc(fi, pdefs[0]))
             else:
                 comp, key, ifs, _ = c
-                tests = [nf.canon(t) for t in ifs]
-                good = [t for t in tests if X.m("%s not in symbols" % key, t) is not None]
-                inv = [t for t in tests if X.m("%s in symbols" % key, t) is not None]
                 valok = isinstance(comp, ast.DictComp) and X.is_name(comp.key, key) and (
                     X.m("constants[%s]" % key, comp.value) is not None or
                     (isinstance(comp.generators[0].target, ast.Tuple) and X.is_name(comp.value, comp.generators[0].target.elts[1].id)))
-                if inv:
-                    r.violation(construct, 'the filter is inverted (`%s`): only the shadowed constants are kept' % short(inv[0]), lib.loc(fi, pdefs[0]))
-                elif not ifs:
-                    r.violation(construct, 'the comprehension has no filter: shadowed constants are not pruned', lib.loc(fi, pdefs[0]))
-                elif len(good) == 1 and len(ifs) == 1 and valok:
-                    r.ok(construct, short(pv, 90), lib.loc(fi, pdefs[0]))
-                else:
+
+                def atom(e, key=key):
+                    for name, fld in (('symbols', 'sym'), ('sample_from', 'sf')):
+                        if X.m("%s in %s" % (key, name), e) is not None:
+                            return lambda w, fld=fld: w[fld]
+                        if X.m("%s not in %s" % (key, name), e) is not None:
+                            return lambda w, fld=fld: not w[fld]
+                    return None
+                guards = X.Guards(atom)
+                try:
+                    tests = [guards.compile(nf.canon(t)) for t in ifs]
+                except X.Unrecognised:
+                    tests = None
+                if not valok or tests is None:
                     r.undecided(construct, 'filter not recognised: %s' % short(pv), lib.loc(fi, pdefs[0]))
+                else:
+                    # Venn regions of a constant's name: every symbol has a sampler (symbols is a subset of sample_from's keys),
+                    # sample_from additionally holds the heads of numbered variables, which are never sampled themselves
+                    regions = [({'sym': True, 'sf': True}, 'also a declared symbol'),
+                               ({'sym': False, 'sf': True}, 'the head of a numbered variable (a key of sample_from that is not a symbol)'),
+                               ({'sym': False, 'sf': False}, 'not the name of any variable')]
+                    bad = [(w, text) for w, text in regions if all(t(w) for t in tests) != (not w['sym'])]
+                    if not bad:
+                        r.ok(construct, short(pv, 90), lib.loc(fi, pdefs[0]))
+                    else:
+                        w, text = bad[0]
+                        kept = all(t(w) for t in tests)
+                        r.violation(construct, 'a constant whose name is %s is %s by `%s`, the property needs it %s: %s' % (
+                            text, 'kept' if kept else 'dropped', short(pv, 80), 'dropped' if kept else 'kept',
+                            'the constant stays in the sample next to / instead of the variable of the same name' if kept else
+                            'no variable shadows it, yet it is missing from every sample and from the scope of dependent formulas'),
+                            lib.loc(fi, pdefs[0]), expected='{c: constants[c] for c in constants if c not in symbols}')
         # K4 partition of the symbols
         wdefs = A.assigns(A.W)
         construct_w = 'gen_symbols_samples: the pending dict holds exactly the DependentSampler symbols with their depends'
@@ -1466,6 +1490,66 @@ def d6_siblings(ctx, idx):
             r.undecided(construct, 'return not recognised', fi.loc)
 
 
+# ----------------------------------------------------------------------------- D7
+def _sf_domain(e):
+    """'full' if e ranges over all keys/values of config['sample_from'], 'variables' / 'numbered_vars' for the narrower name
+    lists, 'names' for variables + numbered_vars (the full key set by construction of the schema), else None."""
+    if isinstance(e, ast.Call) and isinstance(e.func, ast.Name) and e.func.id in ('list', 'sorted', 'set', 'tuple', 'iter') and len(e.args) == 1:
+        return _sf_domain(e.args[0])
+    if isinstance(e, ast.Call) and isinstance(e.func, ast.Attribute) and e.func.attr in ('keys', 'values', 'items') and not e.args:
+        return 'full' if lib.is_config(e.func.value, 'sample_from') else None
+    if lib.is_config(e, 'sample_from'):
+        return 'full'
+    if lib.is_config(e, 'variables'):
+        return 'variables'
+    if lib.is_config(e, 'numbered_vars'):
+        return 'numbered_vars'
+    if isinstance(e, ast.BinOp) and isinstance(e.op, ast.Add):
+        parts = {_sf_domain(e.left), _sf_domain(e.right)}
+        if parts == {'variables', 'numbered_vars'}:
+            return 'names'
+    return None
+
+
+def d7_samplers(ctx, idx):
+    r = ctx.rule('D7.SAMPLERS', "every enumeration of the grader's sampling sets ranges over config['sample_from'], the one table that "
+                 "holds them all (numbered-variable heads have samplers but are not in config['variables'])", floor=1)
+    with r:
+        n = 0
+        for fi in idx.package_funcs():
+            if not fi.module.name.startswith('mitxgraders.') or fi.module.name.startswith('mitxgraders.helpers.calc'):
+                continue
+            gens = []
+            for node in walk_own(fi.node):
+                if isinstance(node, (ast.ListComp, ast.SetComp, ast.GeneratorExp, ast.DictComp)):
+                    for g in node.generators:
+                        gens.append((g.target, g.iter, node))
+                elif isinstance(node, ast.For):
+                    gens.append((node.target, node.iter, node))
+            for target, it, scope in gens:
+                if not isinstance(target, ast.Name):
+                    continue
+                looks_up = bool(X.find_exprs(scope, "self.config['sample_from'][%s]" % target.id, own=False))
+                dom = _sf_domain(lib.inline_locals(it, fi.node))
+                if not looks_up and not (dom == 'full' and any(
+                        isinstance(c, ast.Call) and nf.callee_name(c) == 'isinstance' and X.mentions(c, target.id) for c in ast.walk(scope))):
+                    continue
+                n += 1
+                construct = "%s: enumeration of the sampling sets" % fi.qualname.split('mitxgraders.')[-1]
+                if dom in ('full', 'names'):
+                    r.ok(construct, 'ranges over %s' % short(it), lib.loc(fi, scope))
+                elif dom in ('variables', 'numbered_vars'):
+                    other = 'the heads of numbered variables' if dom == 'variables' else 'the declared variables'
+                    r.violation(construct, "the sampling sets are looked up for the names in config['%s'] only: %s also have samplers in "
+                                "config['sample_from'], so e.g. a DependentSampler attached to a numbered-variable head is overlooked (a sibling "
+                                "input it depends on is never defined -> 'depend on undefined quantities' for a valid configuration)"
+                                % (dom, other), lib.loc(fi, scope), expected="for x in self.config['sample_from']", found=short(it))
+                else:
+                    r.undecided(construct, 'iteration domain not recognised: %s' % short(it), lib.loc(fi, scope))
+        if n == 0:
+            raise AnalysisError("no enumeration of config['sample_from'] found")
+
+
 # ------------------------------------------------------------------------ self-test
 MUTANTS = [
     Mutant('circular-raise-removed', SAMPLING, "                bad_symbols = \", \".join(sorted(unevaluated_dependents.keys()))\n                raise ConfigError(\"Circularly dependent DependentSamplers detected: \" +\n                                  bad_symbols)\n",
@@ -1480,6 +1564,8 @@ MUTANTS = [
     Mutant('dependent-not-removed', SAMPLING, "                    del unevaluated_dependents[symbol]\n", "", 'D1'),
     Mutant('circular-error-class', SAMPLING, "                raise ConfigError(\"Circularly dependent DependentSamplers detected: \" +", "                raise ValueError(\"Circularly dependent DependentSamplers detected: \" +", 'D1'),
     Mutant('constants-not-pruned', SAMPLING, "    pruned_constants = {sym: constants[sym] for sym in constants if sym not in symbols}", "    pruned_constants = dict(constants)", 'D2'),
+    Mutant('constants-pruned-by-sampler-table', SAMPLING, "for sym in constants if sym not in symbols}", "for sym in constants if sym not in sample_from}", 'D2'),
+    Mutant('samplers-enumerated-over-declared-variables', FG, "                    for x in self.config['sample_from']\n", "                    for x in self.config['variables']\n", 'D7'),
     Mutant('constants-not-included', SAMPLING, "        sample_dict = pruned_constants.copy()", "        sample_dict = {}", 'D2'),
     Mutant('samples-share-one-dict', SAMPLING, "        sample_dict = pruned_constants.copy()", "        sample_dict = pruned_constants", 'D2'),
     Mutant('readiness-test-dropped', SAMPLING, "                if is_subset(dependencies, sample_dict):", "                if True:", 'D3'),
@@ -1524,6 +1610,9 @@ MUTANTS = [
 ]
 
 BENIGN = [
+    Benign('samplers-enumerated-by-values', FG, "        samplers = [self.config['sample_from'][x]\n                    for x in self.config['sample_from']\n                    if isinstance(self.config['sample_from'][x], DependentSampler)]",
+           "        samplers = [s for s in self.config['sample_from'].values() if isinstance(s, DependentSampler)]"),
+    Benign('constants-pruned-with-redundant-test', SAMPLING, "for sym in constants if sym not in symbols}", "for sym in constants if not (sym in symbols and sym in sample_from)}"),
     Benign('regexp-from-format-template', MH, "    regexp = (r\"^((\" + head_list + \")\"  # Start and match any head (capture full string, head)\n              r\"_{\"  # match _{\n              r\"(?:[-]?[1-9]\\d*|0)\"  # match number pattern\n              r\"})$\")  # match closing }, close group, and end of string\n",
            "    regexp = r'^(({heads})_{{{number}}})$'.format(heads=head_list, number=r'(?:[-]?[1-9]\\d*|0)')\n"),
     Benign('progress-by-size-comparison', SAMPLING, "            progress_made = False\n            for symbol, dependencies in list(unevaluated_dependents.items()):\n                if is_subset(dependencies, sample_dict):\n                    sample_dict[symbol] = sample_from[symbol].compute_sample(\n                        sample_dict, functions, suffixes)\n                    del unevaluated_dependents[symbol]\n                    progress_made = True\n\n            if not progress_made:",
